@@ -117,21 +117,25 @@ Section Proofs.
   Qed.
 
   (* own chain = pre ++ cid :: own, peer's chain = pre ++ cid :: blocks; the peer answers cid and delivers blocks *)
-  Lemma honest_peer_converges_fast : forall rs n pre cid own blocks th r2,
+  Lemma honest_peer_converges_fast : forall rs cs n pre cid own blocks th r2,
     chain n = pre ++ cid :: own -> ~ In cid pre ->
     finalized n <= length pre -> length own <= r2 -> th - length pre <= r2 ->
     all_valid valid (pre ++ [cid]) blocks ->
-    fast_sync valid rs n (Some cid) blocks EndOk th r2 =
+    fast_sync valid rs cs n (Some cid) blocks EndOk th r2 =
     ({| chain := pre ++ cid :: blocks; temp := []; finalized := finalized n; banned := banned n |}, Synced).
   Proof.
-    intros rs n pre cid own blocks th r2 Hc Hn Hf Ho Ht Hv. unfold fast_sync. assert (Hi : index_of cid (chain n) = Some (length pre)) by (rewrite Hc; apply index_of_mid; exact Hn).
+    intros rs cs n pre cid own blocks th r2 Hc Hn Hf Ho Ht Hv. unfold fast_sync. assert (Hi : index_of cid (chain n) = Some (length pre)) by (rewrite Hc; apply index_of_mid; exact Hn).
     assert (Hl : length (chain n) = length pre + S (length own)) by (rewrite Hc, app_length; reflexivity).
     rewrite Hi, Hl.
     assert (E1 : (length pre <? finalized n) = false) by (apply Nat.ltb_ge; lia). rewrite E1.
     assert (E2 : (r2 <? length pre + S (length own) - 1 - length pre) = false) by (apply Nat.ltb_ge; lia).
     assert (E3 : (r2 <? th - length pre) = false) by (apply Nat.ltb_ge; lia). rewrite E2, E3. cbn [orb].
-    rewrite (delete_till_mid n pre cid own true Hc Hf). cbn [negb chain]. rewrite (apply_all_valid _ _ Hv).
-    unfold clear_temp, with_chain. cbn [chain finalized banned]. rewrite <- app_assoc. reflexivity.
+    set (n0 := if cs then clear_temp n else n).
+    assert (Hc0 : chain n0 = pre ++ cid :: own) by (subst n0; destruct cs; exact Hc).
+    assert (Hf0 : finalized n0 <= length pre) by (subst n0; destruct cs; exact Hf).
+    rewrite (delete_till_mid n0 pre cid own true Hc0 Hf0). cbn [negb chain]. rewrite (apply_all_valid _ _ Hv).
+    unfold clear_temp, with_chain. cbn [chain finalized banned]. rewrite <- app_assoc.
+    subst n0. destruct cs; reflexivity.
   Qed.
 
   Lemma honest_peer_converges_block : forall n pre cid own blocks,
@@ -147,40 +151,49 @@ Section Proofs.
   Qed.
 
   (* ---------------------------------------------------------------- failing fast sync *)
-  (* REPAIRED code (restoreBlocks deletes without saving): wherever the first invalid block sits, the original
-     chain is back and the peer is banned *)
+  Lemma stale_save_from : forall bs h t hc, hc < h -> stale t hc = false -> stale (save_from h bs t) hc = false.
+  Proof.
+    induction bs as [|b r IH]; intros h t hc Hlt Hs; cbn [save_from]; [exact Hs|].
+    apply IH; [lia|]. unfold stale. cbn [existsb fst]. fold (stale t hc). rewrite Hs.
+    assert (E : (h <=? hc) = false) by (apply Nat.leb_gt; lia). rewrite E. reflexivity.
+  Qed.
+
+  (* CURRENT code (restoreBlocks deletes without saving; stale temp blocks cleared first): wherever the first invalid
+     block sits and whatever temp blocks earlier syncs left behind, the original chain is back and the peer is banned *)
   Lemma failed_fast_sync_restores_and_bans : forall n pre cid own good bad rest th r2,
-    chain n = pre ++ cid :: own -> ~ In cid pre -> temp n = [] ->
+    chain n = pre ++ cid :: own -> ~ In cid pre ->
     finalized n <= length pre -> length own <= r2 -> th - length pre <= r2 ->
     all_valid valid (pre ++ [cid]) good -> valid ((pre ++ [cid]) ++ good) bad = false ->
     all_valid valid (pre ++ [cid]) own ->
-    let '(n', o) := fast_sync valid false n (Some cid) (good ++ bad :: rest) EndOk th r2 in
+    let '(n', o) := fast_sync valid false true n (Some cid) (good ++ bad :: rest) EndOk th r2 in
     chain n' = chain n /\ banned n' = true /\ o = Failed.
   Proof.
-    intros n pre cid own good bad rest th r2 Hc Hn Htmp Hf Ho Ht Hg Hbad Hown. unfold fast_sync.
+    intros n pre cid own good bad rest th r2 Hc Hn Hf Ho Ht Hg Hbad Hown. unfold fast_sync.
     assert (Hi : index_of cid (chain n) = Some (length pre)) by (rewrite Hc; apply index_of_mid; exact Hn).
     assert (Hl : length (chain n) = length pre + S (length own)) by (rewrite Hc, app_length; reflexivity).
     rewrite Hi, Hl.
     assert (E1 : (length pre <? finalized n) = false) by (apply Nat.ltb_ge; lia). rewrite E1.
     assert (E2 : (r2 <? length pre + S (length own) - 1 - length pre) = false) by (apply Nat.ltb_ge; lia).
     assert (E3 : (r2 <? th - length pre) = false) by (apply Nat.ltb_ge; lia). rewrite E2, E3. cbn [orb].
-    rewrite (delete_till_mid n pre cid own true Hc Hf). cbn [negb chain]. rewrite Htmp.
+    rewrite (delete_till_mid (clear_temp n) pre cid own true Hc Hf). cbn [negb chain clear_temp temp].
     rewrite (apply_all_fails _ _ _ _ Hg Hbad).
     set (n2 := with_chain _ _).
     assert (Hc2 : chain n2 = pre ++ cid :: good) by (subst n2; cbn [with_chain chain]; rewrite <- app_assoc; reflexivity).
     assert (Hf2 : finalized n2 <= length pre) by (subst n2; cbn; exact Hf).
     rewrite (delete_till_mid n2 pre cid good false Hc2 Hf2). cbn [negb chain temp]. subst n2. cbn [with_chain temp finalized banned].
+    rewrite (stale_save_from own (S (length pre)) [] (length pre)) by (try lia; reflexivity).
     rewrite save_from_length. cbn [length]. rewrite Nat.add_0_r.
     destruct (restore_saved own (pre ++ [cid]) (S (length pre)) Hown) as [t' Ht']. rewrite Ht'.
     unfold ban, with_chain_temp. cbn [chain banned]. split; [rewrite Hc, <- app_assoc; reflexivity|]. split; reflexivity.
   Qed.
 
-  (* ORIGINAL code (restoreBlocks deleting with saveTemp = true): proved only when the FIRST applied block is invalid *)
+  (* ORIGINAL code (restoreBlocks deleting with saveTemp = true, no clearing): proved only when the FIRST applied block is
+     invalid and no temp block was left behind *)
   Lemma failed_fast_sync_orig_first_block_case : forall n pre cid own bad rest th r2,
     chain n = pre ++ cid :: own -> ~ In cid pre -> temp n = [] ->
     finalized n <= length pre -> length own <= r2 -> th - length pre <= r2 ->
     valid (pre ++ [cid]) bad = false -> all_valid valid (pre ++ [cid]) own ->
-    let '(n', o) := fast_sync valid true n (Some cid) (bad :: rest) EndOk th r2 in
+    let '(n', o) := fast_sync valid true false n (Some cid) (bad :: rest) EndOk th r2 in
     chain n' = chain n /\ banned n' = true /\ o = Failed.
   Proof.
     intros n pre cid own bad rest th r2 Hc Hn Htmp Hf Ho Ht Hbad Hown. unfold fast_sync.
@@ -196,17 +209,18 @@ Section Proofs.
     assert (Hc2 : chain n2 = pre ++ cid :: []) by (subst n2; reflexivity).
     assert (Hf2 : finalized n2 <= length pre) by (subst n2; cbn; exact Hf).
     rewrite (delete_till_mid n2 pre cid [] true Hc2 Hf2). cbn [negb chain temp save_from]. subst n2. cbn [with_chain temp finalized banned].
+    rewrite (stale_save_from own (S (length pre)) [] (length pre)) by (try lia; reflexivity).
     rewrite save_from_length. cbn [length]. rewrite Nat.add_0_r.
     destruct (restore_saved own (pre ++ [cid]) (S (length pre)) Hown) as [t' Ht']. rewrite Ht'.
     unfold ban, with_chain_temp. cbn [chain banned]. split; [rewrite Hc, <- app_assoc; reflexivity|]. split; reflexivity.
   Qed.
 
   (* a peer whose stream breaks or carries a statelessly invalid block costs a fast-syncing node nothing *)
-  Lemma fast_sync_bad_stream_no_change : forall rs n common blocks e th r2, e <> EndOk ->
-    chain (fst (fast_sync valid rs n common blocks e th r2)) = chain n /\
-    snd (fast_sync valid rs n common blocks e th r2) <> Synced.
+  Lemma fast_sync_bad_stream_no_change : forall rs cs n common blocks e th r2, e <> EndOk ->
+    chain (fst (fast_sync valid rs cs n common blocks e th r2)) = chain n /\
+    snd (fast_sync valid rs cs n common blocks e th r2) <> Synced.
   Proof.
-    intros rs n common blocks e th r2 He. unfold fast_sync.
+    intros rs cs n common blocks e th r2 He. unfold fast_sync.
     destruct common as [cid|]; [|cbn; split; [reflexivity|discriminate]].
     destruct (index_of cid (chain n)) as [hc|]; [|cbn; split; [reflexivity|discriminate]].
     destruct (hc <? finalized n); [cbn; split; [reflexivity|discriminate]|].
@@ -228,11 +242,25 @@ Definition w_valid (c : list id) (b : id) : bool :=
 Lemma failed_fast_sync_restores_orig_refuted :
   exists valid n cid own blocks th r2,
     chain n = [0%N] ++ own /\ cid = 0%N /\ temp n = [] /\ all_valid valid [0%N] own /\
-    let '(n', o) := fast_sync valid true n (Some cid) blocks EndOk th r2 in
+    let '(n', o) := fast_sync valid true false n (Some cid) blocks EndOk th r2 in
     chain n' <> chain n /\ banned n' = false.
 Proof.
   exists w_valid, {| chain := [0; 1; 2]%N; temp := []; finalized := 0; banned := false |}, 0%N, [1; 2]%N, [11; 12]%N, 2, 4.
   split; [reflexivity|]. split; [reflexivity|]. split; [reflexivity|]. split; [cbn; auto|].
+  vm_compute. split; [discriminate|reflexivity].
+Qed.
+
+(* with the restore repaired but stale temp blocks not cleared: a temp block left behind by an earlier failed block
+   sync makes the restore abort; the own blocks are gone and the peer is not banned *)
+Lemma failed_fast_sync_stale_temp_refuted :
+  exists valid n cid own blocks th r2,
+    chain n = [0%N; 5%N] ++ own /\ cid = 5%N /\ all_valid valid [0%N; 5%N] own /\
+    let '(n', o) := fast_sync valid false false n (Some cid) blocks EndOk th r2 in
+    chain n' <> chain n /\ banned n' = false.
+Proof.
+  exists (fun c b => match b with 6%N => match c with [0%N; 5%N] => true | _ => false end | _ => false end),
+         {| chain := [0; 5; 6]%N; temp := [(1, 1%N)]; finalized := 0; banned := false |}, 5%N, [6%N], [12%N], 2, 4.
+  split; [reflexivity|]. split; [reflexivity|]. split; [cbn; auto|].
   vm_compute. split; [discriminate|reflexivity].
 Qed.
 
@@ -269,15 +297,19 @@ Section Keep.
     destruct (IH (c ++ [b]) (unbind h t) (S h)) as [ext He]. exists (b :: ext). rewrite He, <- app_assoc. reflexivity.
   Qed.
 
-  Lemma fast_sync_keeps_finalized : forall rs n common blocks e th r2, finalized n < length (chain n) ->
-    keeps n (fst (fast_sync valid rs n common blocks e th r2)).
+  Lemma fast_sync_keeps_finalized : forall rs cs n common blocks e th r2, finalized n < length (chain n) ->
+    keeps n (fst (fast_sync valid rs cs n common blocks e th r2)).
   Proof.
-    intros rs n common blocks e th r2 Hlen. unfold fast_sync, keeps.
+    intros rs cs n common blocks e th r2 Hlen. unfold fast_sync, keeps.
     destruct common as [cid|]; [|cbn; auto]. destruct (index_of cid (chain n)) as [hc|]; [|cbn; auto].
     destruct (hc <? finalized n); [cbn; auto|]. destruct (_ || _); [cbn; auto|].
     destruct e; [|cbn; auto|cbn; auto].
-    destruct (delete_till n hc true) as [n1 ok1] eqn:E1.
-    pose proof (delete_till_keeps n hc true) as K. rewrite E1 in K. cbn [fst] in K.
+    set (n0 := if cs then clear_temp n else n).
+    assert (Hc0 : chain n0 = chain n) by (subst n0; destruct cs; reflexivity).
+    assert (Hf0 : finalized n0 = finalized n) by (subst n0; destruct cs; reflexivity).
+    assert (Hlen0 : finalized n0 < length (chain n0)) by (rewrite Hc0, Hf0; exact Hlen).
+    destruct (delete_till n0 hc true) as [n1 ok1] eqn:E1.
+    pose proof (delete_till_keeps n0 hc true) as K. rewrite E1 in K. cbn [fst] in K. rewrite Hc0, Hf0 in K.
     destruct ok1; cbn [negb]; [|destruct (K [] Hlen) as (K1 & K2 & _); rewrite app_nil_r in K1; cbn [fst]; auto].
     destruct (apply_all_extends valid blocks (chain n1)) as [ext He].
     destruct (apply_all valid (chain n1) blocks) as [c2 ok] eqn:Ea. cbn [fst] in He. subst c2.
@@ -291,6 +323,8 @@ Section Keep.
     assert (Hc2 : chain n2 = chain n1 ++ ext) by reflexivity.
     destruct ok3; cbn [negb].
     2:{ destruct (J [] Hlen2) as (J1 & J2 & _). rewrite app_nil_r in J1. cbn [fst]. rewrite Hf2, Hc2 in J1. rewrite J1, J2. auto. }
+    destruct (stale (temp n3) hc).
+    { destruct (J [] Hlen2) as (J1 & J2 & _). rewrite app_nil_r in J1. cbn [fst]. rewrite Hf2, Hc2 in J1. rewrite J1, J2. auto. }
     destruct (restore_apply_extends (length (temp n3)) (chain n3) (temp n3) (S hc)) as [ext4 He4].
     destruct (restore_apply valid (chain n3) (temp n3) (S hc) (length (temp n3))) as [[c4 t4] ok4]. cbn [fst] in He4. subst c4.
     destruct (J ext4 Hlen2) as (J1 & J2 & _). rewrite Hf2, Hc2 in J1.
